@@ -12,6 +12,7 @@ run, on mutated, truncated and targeted-invalid streams (oracle leg).
 import MinizProof.Gen.All
 import MinizProof.Spec.Inflate
 import MinizProof.Lemmas.Finite
+import MinizProof.Lemmas.CoreSound
 set_option maxRecDepth 1000000
 open Fin'
 
@@ -51,5 +52,167 @@ theorem code_validity_examples :
     Spec.codeValid .litlen #[2, 2] = false ∧ Spec.codeValid .litlen #[1, 1, 1] = false ∧
     Spec.codeValid .litlen #[2, 2, 2, 2] = true ∧ Spec.codeValid .dist #[16] = false := by
   decide +kernel
+
+/-! ### Over the decoder model (`Model.Core`, ICALL correspondence)
+
+Two groups of theorems. (1) `proper_prefix_is_never_rejected`: the "conversely" clause of the property,
+proved from the refinement theorem (C03), the input-split machinery (C07) and uniqueness of run
+results. (2) The local acceptance conditions: each format violation the property lists sends the
+automaton to a failure state (`reject_*`), failure states stop the run with `Failed`
+(`failure_state_stops_run`), and stay failed (C05 `failed_is_sticky`).
+Not yet a theorem: the global converse "Done ⇒ the consumed bytes are a stream the reference decoder
+accepts"; it is checked on every run (mutated, truncated and targeted-invalid streams against the
+reference decoder's verdict) and by the call replay. -/
+open Model.Core Spec in
+/-- A proper prefix of a valid raw stream is never rejected as corrupt: all of it is consumed and the
+    answer is needs-more-input (has-more-output when the window is exactly full) if more input was
+    announced, cannot-make-progress if not. -/
+theorem proper_prefix_is_never_rejected (r : Regs) (a b out : Array UInt8) (outPos budget flags maxDist : Nat)
+    (res : Inflated)
+    (hstart : r.state = sStart) (hshape : r.rawHeader.size = 4 ∧ r.tableSizes.size = 3 ∧ r.lenCodes.size = 512)
+    (hflat : hasFlag flags fNonWrapping = true) (hz : hasFlag flags fParseZlib = false)
+    (hstop : hasFlag flags fStopOnBlockBoundary = false) (hpos : outPos ≤ out.size)
+    (hspec : inflateSpec (out.extract 0 outPos) maxDist (a ++ b) 0 = .accept res)
+    (hroom : outPos + res.out.size ≤ min (outPos + budget) out.size)
+    (hproper : a.size < (res.bitsUsed + 7) / 8) :
+    (decompress r a out outPos budget flags).consumed = a.size ∧
+    (if hasFlag flags fHasMoreInput then
+        (decompress r a out outPos budget flags).status = stNeedsMoreInput ∨
+        (decompress r a out outPos budget flags).status = stHasMoreOutput
+     else (decompress r a out outPos budget flags).status = stFailedCannotMakeProgress) :=
+  proper_prefix_not_rejected r a b out outPos budget flags maxDist res hstart hshape hflat hz hstop hpos hspec hroom hproper
+
+section
+open Model.Core Spec
+/-! ### Local acceptance conditions: each invalid construct sends the automaton to a failure state -/
+variable {e : Model.Core.Env} {c : Model.Core.Ctx} {out : Array UInt8}
+
+theorem failure_state_stops_run (h : sDoneForever < c.r.state) (f : Nat) :
+    run e (f + 1) c out = (stFailed, c, out) := by
+  rw [run]; unfold step; rw [stepAt_failed _ h]
+
+/-- reserved block type 3 -/
+theorem reject_block_type_3 {c1 : Ctx} {bits : Nat} (hs : c.r.state = sReadBlockHeader)
+    (hr : readBits e.inp 3 c = (c1, some bits)) (h3 : bits / 2 % 4 = 3) :
+    ∃ c', step e c out = .cont c' out ∧ c'.r.state = sBlockTypeUnexpected := by
+  rw [step_ReadBlockHeader hs]; unfold stReadBlockHeader; rw [hr]
+  have a : ¬ bits / 2 % 4 = 0 := by omega
+  have b : ¬ bits / 2 % 4 = 1 := by omega
+  have d : ¬ bits / 2 % 4 = 2 := by omega
+  simp only [a, b, d, ↓reduceIte]
+  exact ⟨_, rfl, rfl⟩
+
+/-- stored block whose LEN is not the complement of NLEN -/
+theorem reject_stored_len_mismatch (hs : c.r.state = sRawHeader) (hc : ¬ c.r.counter < 4)
+    (hbad : (c.r.rawHeader.getD 0 0 + 256 * c.r.rawHeader.getD 1 0) +
+            (c.r.rawHeader.getD 2 0 + 256 * c.r.rawHeader.getD 3 0) ≠ 65535) :
+    ∃ c', step e c out = .cont c' out ∧ c'.r.state = sBadRawLength := by
+  rw [step_RawHeader hs]; unfold stRawHeader
+  simp only [hc, ↓reduceIte, hbad, ne_eq, not_false_eq_true]
+  exact ⟨_, rfl, rfl⟩
+
+/-- HLIT > 286 or HDIST > 30 -/
+theorem reject_table_sizes (hs : c.r.state = sReadTableSizes) (hc : ¬ c.r.counter < 3)
+    (hbad : ¬ (c.r.tableSizes.getD 0 0 ≤ 286 ∧ c.r.tableSizes.getD 1 0 ≤ 30)) :
+    ∃ c', step e c out = .cont c' out ∧ c'.r.state = sBadDistOrLiteralTableLength := by
+  rw [step_ReadTableSizes hs]; unfold stReadTableSizes
+  simp only [hc, ↓reduceIte, hbad]
+  exact ⟨_, rfl, rfl⟩
+
+/-- over-subscribed or incomplete code-length code -/
+theorem reject_bad_clen_code (hs : c.r.state = sReadHufflenTableCodeSize) (hc : ¬ c.r.counter < c.r.tableSizes.getD 2 0)
+    (hbt : c.r.blockType = 2) (hbad : codeValid .clen c.r.clenLens = false) :
+    ∃ c', step e c out = .cont c' out ∧ c'.r.state = sBadTotalSymbols := by
+  rw [step_ReadHufflenTableCodeSize hs]; unfold stReadHufflenTableCodeSize
+  simp only [hc, ↓reduceIte]
+  unfold initTree
+  simp only [hbt, ↓reduceIte, hbad, Bool.false_eq_true]
+  exact ⟨_, rfl, rfl⟩
+
+/-- over-subscribed or incomplete literal/length or distance code (other than the ≤ 1-bit case) -/
+theorem reject_bad_litlen_dist_code (hs : c.r.state = sReadLitlenDistTablesCodeSize)
+    (hc : c.r.counter = c.r.tableSizes.getD 0 0 + c.r.tableSizes.getD 1 0) (hbt : c.r.blockType = 2)
+    (hbad : codeValid .litlen (c.r.lenCodes.extract 0 (c.r.tableSizes.getD 0 0)) = false ∨
+            codeValid .dist (c.r.lenCodes.extract (c.r.tableSizes.getD 0 0)
+              (c.r.tableSizes.getD 0 0 + c.r.tableSizes.getD 1 0)) = false) :
+    ∃ c', step e c out = .cont c' out ∧ c'.r.state = sBadTotalSymbols := by
+  rw [step_ReadLitlenDistTablesCodeSize hs]; unfold stReadLitlenDistTablesCodeSize
+  have h1 : ¬ c.r.counter < c.r.tableSizes.getD 0 0 + c.r.tableSizes.getD 1 0 := by omega
+  have h2 : ¬ c.r.counter ≠ c.r.tableSizes.getD 0 0 + c.r.tableSizes.getD 1 0 := by omega
+  simp only [h1, h2, ↓reduceIte]
+  unfold initTree
+  simp only [hbt, Nat.add_one_sub_one, Nat.reduceSub, Nat.reduceEqDiff, Nat.succ_ne_self, ↓reduceIte]
+  by_cases hd : codeValid .dist (c.r.lenCodes.extract (c.r.tableSizes.getD 0 0)
+      (c.r.tableSizes.getD 0 0 + c.r.tableSizes.getD 1 0)) = true
+  · have hl : codeValid .litlen (c.r.lenCodes.extract 0 (c.r.tableSizes.getD 0 0)) = false := by
+      rcases hbad with h | h
+      · exact h
+      · rw [hd] at h; simp at h
+    simp only [hd, Bool.not_true, Bool.false_eq_true, ↓reduceIte, hl, Bool.not_false]
+    exact ⟨_, rfl, rfl⟩
+  · simp only [Bool.not_eq_true] at hd
+    simp only [hd, Bool.not_false, ↓reduceIte]
+    exact ⟨_, rfl, rfl⟩
+
+/-- more code lengths than HLIT + HDIST announced -/
+theorem reject_code_length_overrun (hs : c.r.state = sReadLitlenDistTablesCodeSize)
+    (hc : c.r.counter > c.r.tableSizes.getD 0 0 + c.r.tableSizes.getD 1 0) :
+    ∃ c', step e c out = .cont c' out ∧ c'.r.state = sBadCodeSizeSum := by
+  rw [step_ReadLitlenDistTablesCodeSize hs]; unfold stReadLitlenDistTablesCodeSize
+  have h1 : ¬ c.r.counter < c.r.tableSizes.getD 0 0 + c.r.tableSizes.getD 1 0 := by omega
+  have h2 : c.r.counter ≠ c.r.tableSizes.getD 0 0 + c.r.tableSizes.getD 1 0 := by omega
+  simp only [h1, h2, ↓reduceIte, ne_eq, not_false_eq_true]
+  exact ⟨_, rfl, rfl⟩
+
+/-- repeat-previous code with no previous length -/
+theorem reject_repeat_without_previous {c1 : Ctx} (hs : c.r.state = sReadLitlenDistTablesCodeSize)
+    (hc : c.r.counter < c.r.tableSizes.getD 0 0 + c.r.tableSizes.getD 1 0)
+    (hd : decodeHuff e.inp c.r.clenCode c = (c1, some 16)) (h0 : c1.r.counter = 0) :
+    ∃ c', step e c out = .cont c' out ∧ c'.r.state = sBadCodeSizeDistPrevLookup := by
+  rw [step_ReadLitlenDistTablesCodeSize hs]; unfold stReadLitlenDistTablesCodeSize
+  simp only [hc, ↓reduceIte, hd, Nat.lt_irrefl, h0, and_self]
+  exact ⟨_, rfl, rfl⟩
+
+/-- literal/length symbols 286 and 287 (and the filler of an incomplete code) -/
+theorem reject_bad_litlen_symbol (hs : c.r.state = sHuffDecodeOuterLoop1) (h1 : c.r.counter % 512 ≠ 256)
+    (h2 : c.r.counter % 512 > 285) :
+    ∃ c', step e c out = .cont c' out ∧ c'.r.state = sInvalidLitlen := by
+  rw [step_HuffDecodeOuterLoop1 hs]; unfold stHuffDecodeOuterLoop1
+  simp only [h1, ↓reduceIte, h2]
+  exact ⟨_, rfl, rfl⟩
+
+/-- distance symbols 30 and 31 -/
+theorem reject_bad_distance_symbol {c1 : Ctx} {sym : Nat} (hs : c.r.state = sDecodeDistance)
+    (hd : decodeHuff e.inp c.r.distCode c = (c1, some sym)) (h : sym > 29) :
+    ∃ c', step e c out = .cont c' out ∧ c'.r.state = sInvalidDist := by
+  rw [step_DecodeDistance hs]; unfold stDecodeDistance
+  simp only [hd, h, ↓reduceIte]
+  exact ⟨_, rfl, rfl⟩
+
+/-- with a flat output buffer, a distance reaching before the start of the output -/
+theorem reject_distance_before_start (hs : c.r.state = sHuffDecodeOuterLoop2) (hflat : e.ring = false)
+    (h : c.r.dist > c.outPos) :
+    ∃ c', step e c out = .cont c' out ∧ c'.r.state = sDistanceOutOfBounds := by
+  rw [step_Match1 hs]; unfold stMatch
+  simp only [h, hflat, Bool.not_false, and_self, true_or, ↓reduceIte]
+  exact ⟨_, rfl, rfl⟩
+
+/-- invalid zlib header (method, window field, preset dictionary, check bits) -/
+theorem reject_bad_zlib_header {b : UInt8} (hs : c.r.state = sReadZlibFlg) (hb : e.inp[c.inPos]? = some b)
+    (hbad : zlibHeaderValid c.r.zHeader0 b.toNat = false) :
+    ∃ c', step e c out = .cont c' out ∧ c'.r.state = sBadZlibHeader := by
+  rw [step_ReadZlibFlg hs]; unfold stReadZlibFlg; rw [hb]
+  simp only [hbad, Bool.not_false, Bool.true_or, ↓reduceIte]
+  exact ⟨_, rfl, rfl⟩
+
+/-- all of the above are failure states -/
+theorem rejection_states_are_failures :
+    sDoneForever < sBlockTypeUnexpected ∧ sDoneForever < sBadRawLength ∧ sDoneForever < sBadDistOrLiteralTableLength ∧
+    sDoneForever < sBadTotalSymbols ∧ sDoneForever < sBadCodeSizeSum ∧ sDoneForever < sBadCodeSizeDistPrevLookup ∧
+    sDoneForever < sInvalidLitlen ∧ sDoneForever < sInvalidDist ∧ sDoneForever < sDistanceOutOfBounds ∧
+    sDoneForever < sBadZlibHeader := by decide
+
+end
+
 
 end C04
